@@ -4,7 +4,9 @@ use serde_json::Value;
 use crate::engine::{CheckResult, Ctx, Tier};
 
 pub mod c02;
+pub mod c11;
 pub mod c13;
+pub mod c14;
 pub mod c15;
 pub mod c16;
 
@@ -25,7 +27,7 @@ pub struct PropDef {
 }
 
 pub fn all() -> Vec<PropDef> {
-    vec![c02::def(), c13::def(), c15::def(), c16::def()]
+    vec![c02::def(), c11::def(), c13::def(), c14::def(), c15::def(), c16::def()]
 }
 
 pub fn find(id: &str) -> Option<PropDef> {
